@@ -32,6 +32,7 @@ PROP = "C13"
 MODULE = "MCHap.Properties.C13"
 THEOREMS = [
     "MCHap.C13.alt_iff",
+    "MCHap.C13.alt_iff_ne_ref",
     "MCHap.C13.ref_first",
     "MCHap.C13.alts_nodup",
     "MCHap.C13.refmasked_iff",
@@ -40,10 +41,14 @@ THEOREMS = [
     "MCHap.C13.gt_perm_labels",
     "MCHap.C13.gt_dot_iff_excluded",
     "MCHap.C13.gt_sorted_dots_last",
+    "MCHap.C13.label_is_position",
+    "MCHap.C13.afp_entry",
     "MCHap.C13.afp_sum_le_one",
     "MCHap.C13.gp_sum_le_one",
-    "MCHap.C13.gp_spec_ref_called",
-    "MCHap.C13.gp_refmasked_counterexample",
+    "MCHap.C13.gp_entry_spec",
+    "MCHap.C13.gp_spec",
+    "MCHap.C13.labelled_iff",
+    "MCHap.C13.gp_refmasked_repaired",
 ]
 RULE = ("cases: 1..4 samples (ploidy 1..6) with posteriors over 1..6 distinct genotypes drawn from a pool of 2..6 haplotypes "
         "(0..3 SNVs; the reference haplotype present in ~75 % of the pools), probabilities dyadic (k/64) or general (k/N), x thresholds "
@@ -116,6 +121,19 @@ def post_tokens(ploidy, gens, fprobs):
     return toks
 
 
+def gpa_takes_allele_count(gpa):
+    import inspect
+    return "n_alleles" in inspect.signature(gpa).parameters
+
+
+def call_gpa(gpa, posterior, labels, n_alleles):
+    """`_genotype_posterior_as_array(posterior, labels, n_alleles=...)`; `n_alleles=None` is the two-argument call
+    (a tree whose function has no such parameter is called the old way — the model then disagrees, as it should)"""
+    if n_alleles is not None and gpa_takes_allele_count(gpa):
+        return gpa(posterior, labels, n_alleles=n_alleles)
+    return gpa(posterior, labels)
+
+
 def hap_str(h):
     return ",".join(str(int(a)) for a in h) if len(h) else "-"
 
@@ -151,6 +169,20 @@ def vcf_index(alleles):
 # --------------------------------------------------------------------------------------
 
 def check_call(chk, drv, posts_np, posts_py, n_base, thr, dyadic, origin, fns, deep=True):
+    """`_check_call`, with an exception of the implementation reported as a violation instead of aborting the check"""
+    try:
+        return _check_call(chk, drv, posts_np, posts_py, n_base, thr, dyadic, origin, fns, deep)
+    except C.Infra:
+        raise
+    except Exception as e:   # noqa: BLE001
+        chk.violation(f"the implementation raised {type(e).__name__} on valid per-sample posteriors",
+                      {"origin": origin, "threshold": float(thr), "n_base": n_base, "error": repr(e)[:300],
+                       "posteriors": [{"ploidy": p, "genotypes": [[list(h) for h in g] for g in gens], "probabilities": [float(x) for x in pr]}
+                                      for p, gens, pr in posts_py]}, "C13/raises")
+        return None
+
+
+def _check_call(chk, drv, posts_np, posts_py, n_base, thr, dyadic, origin, fns, deep=True):
     """posts_np: list of PosteriorGenotypeDistribution; posts_py: [(ploidy, gens(tuples), float probs)]"""
     call_posterior_haplotypes, gaa, gpa, mset = fns
     thr = float(thr)
@@ -277,12 +309,12 @@ def check_call(chk, drv, posts_np, posts_py, n_base, thr, dyadic, origin, fns, d
                 or any(not C.close(float(x), float(y)) for x, y in zip(occurrences, mo)):
             chk.disagreement("AFP/AOP assignment != model afpAop", {**scase, "impl": [frequencies.tolist(), occurrences.tolist()], "model": sec[1] + ";" + sec[2]})
         # GP
+        n_alleles = len(impl_haps)
         try:
-            gp = gpa(pnp, labels)
+            gp = call_gpa(gpa, pnp, labels, n_alleles)
             impl_gp = [float(x) for x in gp]
         except IndexError:
             impl_gp = "error"
-        n_alleles = len(impl_haps)
         size = math.comb(n_alleles + ploidy - 1, ploidy)
         exp_gp = [0.0] * size
         for g, p in zip(gens, pr):
@@ -320,17 +352,20 @@ def check_labels(chk, drv, r, PGD, gaa, gpa, n_cases):
         for h, i in lab:
             toks.extend(str(a) for a in h); toks.append(str(i))
         toks += post_tokens(ploidy, gens, fpr) + [str(a) for h in g for a in h]
-        reqs.append(" ".join(toks)); meta.append((n_base, lab, ploidy, gens, fpr, g))
-    for (n_base, lab, ploidy, gens, fpr, g), q, a in zip(meta, reqs, drv.ask(reqs)):
+        n_all = r.choice([None, start + len(lab), start + len(lab) + 1, len(lab)])
+        toks.append("none" if n_all is None else str(n_all))
+        reqs.append(" ".join(toks)); meta.append((n_base, lab, ploidy, gens, fpr, g, n_all))
+    for (n_base, lab, ploidy, gens, fpr, g, n_all), q, a in zip(meta, reqs, drv.ask(reqs)):
         labels = {np.array(h, dtype=np.int8).tobytes(): i for h, i in lab}
         pnp = make_posterior(PGD, ploidy, gens, fpr, n_base)
         garr = np.array(g, dtype=np.int8).reshape(ploidy, n_base)
         gt = " ".join(str(int(x)) for x in gaa(garr, labels))
         try:
-            gp = " ".join(C.rat_str(float(x)) for x in gpa(pnp, labels))
+            gp = " ".join(C.rat_str(float(x)) for x in call_gpa(gpa, pnp, labels, n_all))
         except IndexError:
             gp = "error"
         chk.count("labels:start=%d" % (lab[0][1] if lab else 0)); chk.count("labels:GP-error" if gp == "error" else "labels:GP-ok")
+        chk.count("labels:n_alleles=None" if n_all is None else "labels:n_alleles=given")
         chk.case(q, len(lab) >= 1)
         if f"{gt};{gp}" != a:
             chk.disagreement("_genotype_as_alleles / _genotype_posterior_as_array with an arbitrary label dict != model",
@@ -347,7 +382,7 @@ def cli_part(chk, drv, r, tier, fns, PGD):
 
     work = tempfile.mkdtemp(prefix="verif-c13-")
     n_ds = {"warm": 1, "quick": 2, "thorough": 6}[tier]
-    mcmc = ["--mcmc-steps", "200", "--mcmc-burn", "80"]
+    mcmc = ["--mcmc-steps", "200", "--mcmc-burn", "80", "--mcmc-seed", str(r.randrange(1, 10 ** 6))]
     try:
         for d in range(n_ds):
             ds = S.make_dataset(r, os.path.join(work, f"ds{d}"), n_samples=3, n_loci=3 if tier != "thorough" else 4,
@@ -428,7 +463,7 @@ def cli_part(chk, drv, r, tier, fns, PGD):
                                       "C13/cli/alt-iff")
                 chk.case("cli:" + rec_["line"][:200], len(rec_["ALT"]) >= 1)
             # ---- the same data with --report GP (candidate defect F3 when a record is REFMASKED)
-            if d == 0 or tier == "thorough":
+            if True:
                 out2, code2, err2 = S.run_program(ds.assemble_argv(*mcmc, "--haplotype-posterior-threshold", thr, "--report", "GP"))
                 chk.count("cli:assemble-GP-runs")
                 if code2 != 0:
